@@ -25,8 +25,8 @@
    of exactly its own type, or a slot of type any (wrapped); a literal whose elements have different
    types is []any / {}any with every element wrapped -- i.e. no conversion of a literal to a
    DIFFERENT type ([1] into []any, [] into []num inside an expression, [[1]] + [[]]), except the
-   empty literal [] / {} itself as the value of a declaration, an assignment or a return
-   ( x:[]num ;  x = [] ).  Those conversions are where the models are
+   empty literal [] / {} itself as the value of a declaration, an assignment, a return or an argument
+   ( x:[]num ;  x = []  ;  f []  ;  print [] ).  Those conversions are where the models are
    compared by witnesses below. *)
 From Coq Require Import List Bool String.
 From EvyV Require Import Base Ast Sem Static SemSound StaticTypes StaticImpl.
@@ -209,7 +209,9 @@ Print Assumptions C02_types_ctx_assign_to.
 (* the empty literal retyped to the slot's type ( x = []  with x:[]num ): the source expression is
    [] / {} , which the specification converts *)
 Theorem C02_types_ctx_zero : forall G t e st, zero_lit t e = true -> sty_of t = Some st ->
-  exists e', erase G e = Some e' /\ exists shown, Sp.spec_check (S.CAssign st) e' = Sp.SAccept st shown.
+  exists e', erase G e = Some e' /\
+    (exists shown, Sp.spec_check (S.CAssign st) e' = Sp.SAccept st shown) /\
+    (exists shown, Sp.spec_check (S.CAssign S.SAny) e' = Sp.SAccept S.SAny shown).
 Proof. exact zero_spec_accepts. Qed.
 Print Assumptions C02_types_ctx_zero.
 
@@ -387,7 +389,7 @@ Example C02_types_ex_programs :
   s1_program C02.ex_ok = true /\ s1_program C02.ex_funcs = true.
 Proof. vm_compute. repeat split; reflexivity. Qed.
 
-(*  a:[]num  /  a = []  /  a = [1] + a[0:1]  /  print [1 "x" a]  /  m:{}[]num  /  m.k = a  /  m["k"][0] = 2  /  x:any  /  x = a
+(*  a:[]num  /  a = []  /  print []  /  a = [1] + a[0:1]  /  print [1 "x" a]  /  m:{}[]num  /  m.k = a  /  m["k"][0] = 2  /  x:any  /  x = a
     if (len a) > 0 and m.k == a / print a[0] m / end  *)
 Definition ex_ctx : program :=
   let a := EVar (s_ "a") (TArr TNum) in
@@ -396,6 +398,7 @@ Definition ex_ctx : program :=
      p_stmts :=
        [SDecl (s_ "a") (TArr TNum) (EArr (TArr TNum) []);
         SAssign a (EArr (TArr TNum) []);
+        SCallStmt (s_ "print") [EAny (EArr (TArr TAny) []) (TArr TAny)];
         SCallStmt (s_ "print") [EAny (EArr (TArr TAny) [EAny C02.n1 TNum; EAny (EStr (s_ "x")) TStr; EAny a (TArr TNum)]) (TArr TAny)];
         SAssign a (EBin BPlus (TArr TNum) (EArr (TArr TNum) [C02.n1]) (ESlice (TArr TNum) a (Some C02.n0) (Some C02.n1)));
         SDecl (s_ "m") (TMap (TArr TNum)) (EMap (TMap (TArr TNum)) []);
